@@ -91,7 +91,7 @@ CLAIMS["C35"] = dict(
     engine="kani-transplant",
     technique="bounded symbolic execution of the hamming and argmin kernels of lance-linalg with Kani+CBMC (all byte vectors up to 72 bytes; all f32 bit patterns in arrays up to 4)",
     text=("Decides that hamming() (64-byte chunked path) equals hamming_scalar() and the bit-count definition for every pair of byte vectors of the lengths "
-          "0, 1, 63, 64, 65, 127, 128, 129 (tail only / whole chunks / chunks + tail), and that argmin / argmin_value(_float/_opt/_with_bias) / argmax return a first minimal (maximal) element for every f32 bit "
+          "0, 1, 2, 63, 64, 65 (tail only / one whole chunk / chunk + tail; 127-129 are in the thorough tier but do not finish), and that argmin / argmin_value(_float/_opt/_with_bias) / argmax return a first minimal (maximal) element for every f32 bit "
           "pattern including NaN, signed zeros and infinities. The floating-point accumulation kernels (l2, cosine, dot, norms, SIMD and f16 paths) "
           "are NOT covered: 'equal within tolerance' of re-ordered float sums is out of reach for CBMC; the claim is restricted to the kernels named."),
     note="Only comparisons and one float addition per element are involved; no float accumulation.",
@@ -114,7 +114,7 @@ CLAIMS["C33"] = dict(
     technique="bounded symbolic execution of ManifestNamingScheme (manifest_path, parse_version, detect_scheme, detect_scheme_staging), is_detached_version and the latest-version loop body of current_manifest_local with Kani+CBMC over all u64 versions",
     text=("Decides for every u64 version and both naming schemes that the manifest file name parses back to the version and identifies its scheme, that detached "
           "versions carry the 'd' prefix, are never parsed as attached versions and are detected as V2, that V2 names have fixed width and sort in reverse "
-          "version order (all versions < 2^20 quick; all attached versions thorough), and -- as one inductive step from an arbitrary accumulator -- that the "
+          "version order (all versions < 2^20; the query over all attached versions exists in the thorough tier but does not finish), and -- as one inductive step from an arbitrary accumulator -- that the "
           "latest-version directory scan ignores temporary files, rejects mixed schemes and keeps the maximum version. Listing order of real object stores "
           "and the renames of migrate_scheme_to_v2 are I/O and outside."),
     note="format!, str::parse::<u64>, split_once, starts_with/ends_with are environment models on ASCII strings (core::fmt and core's string searchers are out of reach for CBMC); decimal expansion uniqueness is used as a lemma (registered digits).",
